@@ -418,13 +418,13 @@ Proof.
 Qed.
 
 (* ================================================================ the runner's shortcut is sound *)
-Lemma crash_candidates_sound : forall acts k acc len kt,
-  In kt (crash_candidates acts k acc len) -> In kt (crash_points_from acts k).
+Lemma write_candidates_sound : forall acts k acc len kt,
+  In kt (write_candidates acts k acc len) -> In kt (crash_points_from acts k).
 Proof.
   induction acts as [|a acts IH]; intros k acc len kt H.
-  - exact H.
-  - destruct a; cbn [crash_candidates crash_points_from app] in *;
-      try (destruct H as [H|H]; [left; exact H | right; eapply IH; exact H]).
+  - destruct H.
+  - destruct a; cbn [write_candidates crash_points_from app] in *;
+      try (right; eapply IH; exact H).
     apply in_app_or in H. apply in_or_app. destruct H as [H|H].
     + left. destruct len as [l|].
       * destruct (Nat.leb acc l && Nat.leb l (acc + List.length b)) eqn:E; [|contradiction].
@@ -432,6 +432,24 @@ Proof.
         destruct H as [H|[]]. subst kt. apply (in_map (fun t => (k, t))). apply in_seq. lia.
       * destruct H as [H|[]]. subst kt. apply (in_map (fun t => (k, t))). apply in_seq. lia.
     + right. eapply IH. exact H.
+Qed.
+
+Lemma nonwrite_candidates_sound : forall acts k kt,
+  In kt (nonwrite_candidates acts k) -> In kt (crash_points_from acts k).
+Proof.
+  induction acts as [|a acts IH]; intros k kt H.
+  - exact H.
+  - destruct a; cbn [nonwrite_candidates crash_points_from app] in *;
+      try (destruct H as [H|H]; [left; exact H | right; apply IH; exact H]).
+    apply in_or_app. right. apply IH. exact H.
+Qed.
+
+Lemma crash_candidates_sound : forall acts len kt,
+  In kt (crash_candidates acts len) -> In kt (crash_points_from acts 0).
+Proof.
+  unfold crash_candidates. intros acts len kt H. apply in_app_or in H. destruct H as [H|H].
+  - apply nonwrite_candidates_sound. exact H.
+  - eapply write_candidates_sound. exact H.
 Qed.
 
 Lemma crash_possible_fast_sound : forall tmp state sk bs fs0 o,
